@@ -400,7 +400,8 @@ class SchemaValidator:
                     'Interface field "%s" expects type "%s" but "%s" is type "%s"'
                     % (interface_path, field.type, obj_path, object_field.type)
                 )
-                continue
+                # (The arguments are checked regardless so that every
+                # violation on this field is reported together.)
 
             for arg in field.arguments:
                 object_arg = object_field.argument_map.get(arg.name, None)
